@@ -40,6 +40,47 @@ func c16DefaultWeight() (string, bool) {
 	return val, inLoop
 }
 
+// c16GatewayWrite: the two sites of gateway.go createBackend that must agree on the replica count of a
+// backendRef: (1) the WeightCluster literal takes `Length: len(epready)` (every LISTED ready endpoint), and
+// (2) the loop `for _, addr := range backends[i].epready` that writes the servers adds one server per listed
+// endpoint: its body has an AddEndpoint call and no branching statement (if / switch / continue / break / goto)
+// that could skip one. Model: GwRef.replicas and gwWriteAll (Model/C16Callers).
+func c16GatewayWrite() (lengthIsListed, writesEvery bool) {
+	fd := methodDecl("pkg/converters/gateway/gateway.go", "converter", "createBackend")
+	nLen, nLoop := 0, 0
+	ast.Inspect(fd.Body, func(x ast.Node) bool {
+		switch v := x.(type) {
+		case *ast.KeyValueExpr:
+			if k, ok := v.Key.(*ast.Ident); ok && k.Name == "Length" {
+				nLen++
+				lengthIsListed = exprString(v.Value) == "len(epready)"
+			}
+		case *ast.RangeStmt:
+			if sel, ok := v.X.(*ast.SelectorExpr); ok && sel.Sel.Name == "epready" {
+				nLoop++
+				adds, branches := 0, 0
+				ast.Inspect(v.Body, func(y ast.Node) bool {
+					switch w := y.(type) {
+					case *ast.IfStmt, *ast.SwitchStmt, *ast.TypeSwitchStmt, *ast.BranchStmt, *ast.SelectStmt, *ast.ForStmt, *ast.RangeStmt:
+						branches++
+					case *ast.CallExpr:
+						if s2, ok := w.Fun.(*ast.SelectorExpr); ok && s2.Sel.Name == "AddEndpoint" {
+							adds++
+						}
+					}
+					return true
+				})
+				writesEvery = adds == 1 && branches == 0
+			}
+		}
+		return true
+	})
+	if nLen != 1 || nLoop != 1 {
+		fail("gateway.go createBackend: expected one `Length:` key and one `range ....epready` loop, found %d and %d", nLen, nLoop)
+	}
+	return lengthIsListed, writesEvery
+}
+
 func factsC16() {
 	// ---- C16
 	lb := "pkg/converters/utils/lbweight.go"
@@ -59,6 +100,9 @@ func factsC16() {
 	dw, inLoop := c16DefaultWeight()
 	addInt("c16GatewayDefaultWeight", dw, "gateway.go createBackend: `weight := <lit>`, the weight of a backendRef whose weight is nil")
 	addBool("c16GatewayDefaultInLoop", inLoop, "gateway.go createBackend: `weight := <lit>` is declared inside the body of the `range backendRefs` loop")
+	lenListed, writesEvery := c16GatewayWrite()
+	addBool("c16GatewayLengthIsListed", lenListed, "gateway.go createBackend: the WeightCluster of a backendRef takes `Length: len(epready)`, the number of listed ready endpoints")
+	addBool("c16GatewayWritesEveryListed", writesEvery, "gateway.go createBackend: the loop over backends[i].epready adds one server per listed endpoint (one AddEndpoint call, no if/continue/break in its body)")
 	addBool("c16BlueGreenDrainSkip", has(cmps, "ep.Weight == 0"), "backend.go buildBackendBlueGreenBalance tests `ep.Weight == 0` (draining endpoint: skipped)")
 	addStr("c16BlueGreenPodMode", one(c16PodLits(), "blue/green pod mode literal"), "backend.go buildBackendBlueGreenBalance: `mode.Value == <lit>` stops before the rebalance")
 }
